@@ -287,7 +287,7 @@ func c18Streams(cfg evd.Config, col *evd.Collector, r *rand.Rand) int64 {
 		{"StreamingPull:Recv", nil, "no-call"},
 	}
 	trials := cfg.N(600, 60000)
-	var ops int64
+	var ops, lateTrials int64
 	for tr := 0; tr < trials; tr++ {
 		if !cfg.Mine(tr) {
 			continue
@@ -297,9 +297,20 @@ func c18Streams(cfg evd.Config, col *evd.Collector, r *rand.Rand) int64 {
 		sh := shapes[r.Intn(len(shapes))]
 		n := []int64{0, 1, 2, 5, 20, math.MaxInt64}[r.Intn(6)]
 		var fired int64
-		set.Add(faults.Description{Operation: sh.op, Parameters: sh.params, Count: n,
-			OnFault: func(faults.Description, faults.Parameters) error { atomic.AddInt64(&fired, 1); return &faultErr{0} }})
+		desc := faults.Description{Operation: sh.op, Parameters: sh.params, Count: n,
+			OnFault: func(faults.Description, faults.Parameters) error { atomic.AddInt64(&fired, 1); return &faultErr{0} }}
+		// a third of the trials inject the fault while the streams are already open
+		// (opened with nothing in the set): it must fire on them all the same
+		late := r.Intn(3) == 0
+		if !late {
+			set.Add(desc)
+		}
 		k := []int{1, 2, 8, 24}[r.Intn(4)]
+		var entered sync.WaitGroup
+		goCh := make(chan struct{})
+		if late {
+			entered.Add(k)
+		}
 		recvs, sends := 1+r.Intn(4), r.Intn(4)
 		onA := make([]bool, k)
 		var failedStart, failedRecv, failedSend, startedA, started, otherErr int64
@@ -324,6 +335,10 @@ func c18Streams(cfg evd.Config, col *evd.Collector, r *rand.Rand) int64 {
 						atomic.AddInt64(&started, 1)
 						if onA[i] {
 							atomic.AddInt64(&startedA, 1)
+						}
+						if late {
+							entered.Done()
+							<-goCh
 						}
 						for j := 0; j < recvs; j++ {
 							var m pubsubpb.StreamingPullRequest
@@ -359,6 +374,12 @@ func c18Streams(cfg evd.Config, col *evd.Collector, r *rand.Rand) int64 {
 			}(i)
 		}
 		start.Done()
+		if late {
+			entered.Wait()
+			set.Add(desc)
+			close(goCh)
+			lateTrials++
+		}
 		done.Wait()
 		ops += int64(k) + started*int64(recvs+sends)
 		// the first RecvMsg of a stream on subscription a is the only one carrying it
@@ -366,6 +387,9 @@ func c18Streams(cfg evd.Config, col *evd.Collector, r *rand.Rand) int64 {
 		switch sh.matches {
 		case "all-starts":
 			matching = int64(k)
+			if late {
+				matching = 0 // every stream had started before the fault existed
+			}
 		case "all-recv":
 			matching = started * int64(recvs)
 		case "recv-of-sub-a":
@@ -413,7 +437,8 @@ func c18Streams(cfg evd.Config, col *evd.Collector, r *rand.Rand) int64 {
 		if cur := settledCurrent(set, ok); !ok(cur) {
 			col.Violation("stream:listing-wrong", fmt.Sprintf("after the streams ended the fault for %q lists %v, expected remaining count %d", sh.op, cur[sh.op], left), wit)
 		}
-		col.Case(evd.FP("stream", sh.op, fmt.Sprint(sh.params), n, k, recvs, sends), k > 1 && matching > 0)
+		col.Case(evd.FP("stream", sh.op, fmt.Sprint(sh.params), n, k, recvs, sends, late), k > 1 && matching > 0)
 	}
+	col.Add("ev_stream_trials_with_the_fault_injected_into_open_streams", lateTrials)
 	return ops
 }
